@@ -22,18 +22,21 @@ structure TG (fl : Option Nat) (s : St) : Prop where
   actTl : ∀ i, (s.timerSlot i).state = .active → (s.timerSlot i).hasTl = true
   nz : ∀ i, (s.timerSlot i).state ≠ .empty → fl ≠ some i → (s.timerSlot i).check ≠ 0
 
-/-- a step that leaves the timer data alone and links no slot item anew -/
-theorem TG.frame {fl : Option Nat} {s s' : St} {P : Bool} (h : TG fl s) (f : Fr s s' true P) : TG fl s' := by
-  obtain ⟨h1, h2, h3⟩ := f.t rfl
+/-- a step that leaves the timer data alone and links no timer slot anew -/
+theorem TG.frame' {fl : Option Nat} {s s' : St} (h : TG fl s) (h1 : s'.timers = s.timers) (h2 : s'.tl = s.tl)
+    (h3 : s'.th = s.th) (hq : ∀ k, s'.cnt (.timer k) ≤ s.cnt (.timer k)) : TG fl s' := by
   have hslot : ∀ k, s'.timerSlot k = s.timerSlot k := fun k => by unfold St.timerSlot; rw [h1]
   refine ⟨?_, by rw [h2]; exact h.tlNd, ?_, ?_, ?_, by rw [h3]; exact h.hnd, ?_, ?_, ?_⟩
   · intro e he; rw [hslot]; rw [h2] at he; exact h.tlAct e he
-  · intro i hi; rw [hslot]; exact h.qJob i (Nat.lt_of_lt_of_le hi (f.q _ rfl))
-  · intro i; exact Nat.le_trans (f.q _ rfl) (h.qNd i)
+  · intro i hi; rw [hslot]; exact h.qJob i (Nat.lt_of_lt_of_le hi (hq i))
+  · intro i; exact Nat.le_trans (hq i) (h.qNd i)
   · intro i hi; rw [hslot]; exact h.fly i hi
   · intro i; rw [hslot]; exact h.notDel i
   · intro i; rw [hslot]; exact h.actTl i
   · intro i; rw [hslot]; exact h.nz i
+
+theorem TG.frame {fl : Option Nat} {s s' : St} {P : Bool} (h : TG fl s) (f : Fr s s' true P) : TG fl s' :=
+  h.frame' (f.t rfl).1 (f.t rfl).2.1 (f.t rfl).2.2 (fun _ => f.q _ rfl)
 
 /-! ### slots -/
 
@@ -88,59 +91,67 @@ theorem TG.timerAdd {fl : Option Nat} {s : St} (h : TG fl s) (p d hh id : Nat) :
   have hsp := firstEmptyT_spec s.timers
   rw [hj] at hsp
   have hje : (s.timerSlot j).state = .empty := hsp.2
-  have hslot : ∀ k, (s.draw.2.setTimer j t).timerSlot k = if k = j then t else s.timerSlot k :=
-    fun k => timerSlot_setTimer_le s.draw.2 j k t hsp.1
   have hts : t.state = .active ∧ t.check = s.nonce + 1 ∧ t.hasTl = true := by subst ht; exact ⟨rfl, rfl, rfl⟩
-  have hperm := tlInsert_perm s.tl ((s.draw.2.setTimer j t).now + d) j
+  have hslot0 : ∀ k, (s.draw.2.setTimer j t).timerSlot k = if k = j then t else s.timerSlot k :=
+    fun k => timerSlot_setTimer_le s.draw.2 j k t hsp.1
+  have e1 : (s.draw.2.setTimer j t).tl = s.tl := by simp
+  have e2 : (s.draw.2.setTimer j t).th = s.th := by simp
+  have e3 : ∀ x, (s.draw.2.setTimer j t).cnt x = s.cnt x := fun x => cnt_congr (by simp) (by simp) (by simp) x
+  have e4 : s.draw.fst = s.nonce + 1 := rfl
+  generalize s.draw.2.setTimer j t = s2 at hslot0 e1 e2 e3 ⊢
+  generalize s.draw.fst = c at e4 ⊢
+  have hperm := tlInsert_perm s2.tl (s2.now + d) j
+  rw [e1] at hperm
   have hjtl : j ∉ s.tl.map Prod.snd := by
     intro hm
     obtain ⟨e, he, rfl⟩ := List.mem_map.1 hm
     have := h.tlAct e he; rw [hje] at this; cases this
+  have hslot : ∀ k, ({ s2 with tl := tlInsert s2.tl (s2.now + d) j, th := assoc s2.th hh (c * 2^32 + j) } : St).timerSlot k
+      = if k = j then t else s.timerSlot k := hslot0
+  have hcnt : ∀ x, ({ s2 with tl := tlInsert s2.tl (s2.now + d) j, th := assoc s2.th hh (c * 2^32 + j) } : St).cnt x
+      = s.cnt x := e3
   refine ⟨?_, ?_, ?_, ?_, ?_, ?_, ?_, ?_, ?_⟩
   · intro e he
-    show ((s.draw.2.setTimer j t).timerSlot e.2).state = _
     rw [hslot]
-    rcases List.mem_cons.1 ((hperm.mem_iff).1 he) with rfl | hm
+    have he' : e ∈ tlInsert s.tl (s2.now + d) j := by rw [← e1]; exact he
+    rcases List.mem_cons.1 ((hperm.mem_iff).1 he') with rfl | hm
     · simp [hts.1]
     · split
       · exact hts.1
       · exact h.tlAct e hm
-  · show (List.map Prod.snd (tlInsert s.tl _ j)).Nodup
+  · show (List.map Prod.snd (tlInsert s2.tl (s2.now + d) j)).Nodup
+    rw [e1]
     exact ((hperm.map Prod.snd).nodup_iff).2 (List.nodup_cons.2 ⟨hjtl, h.tlNd⟩)
   · intro i hi
+    rw [hcnt] at hi
     have hq := h.qJob i hi
-    show ((s.draw.2.setTimer j t).timerSlot i).state = _ ∧ _
     rw [hslot]
     have : i ≠ j := by intro e; subst e; rw [hje] at hq; cases hq.1
     simp only [this, if_false]; exact hq
-  · exact h.qNd
+  · intro i; rw [hcnt]; exact h.qNd i
   · intro i hi
     have hq := h.fly i hi
-    show ((s.draw.2.setTimer j t).timerSlot i).state = _ ∧ ((s.draw.2.setTimer j t).timerSlot i).check = _
     rw [hslot]
     have : i ≠ j := by intro e; subst e; rw [hje] at hq; cases hq.1
     simp only [this, if_false]; exact hq
   · intro e he
-    unfold assoc at he
-    rcases List.mem_cons.1 he with rfl | he
-    · show 1 ≤ (s.draw.fst * 2^32 + j) / 2^32
-      have : s.draw.fst = s.nonce + 1 := rfl
-      rw [this]
+    have he' : e ∈ assoc s.th hh (c * 2^32 + j) := by rw [← e2]; exact he
+    unfold assoc at he'
+    rcases List.mem_cons.1 he' with rfl | he'
+    · show 1 ≤ (c * 2^32 + j) / 2^32
+      rw [e4]
       have h2 : 0 < 2^32 := by decide
       exact (Nat.le_div_iff_mul_le h2).2 (by omega)
-    · exact h.hnd e (List.mem_filter.1 he).1
+    · exact h.hnd e (List.mem_filter.1 he').1
   · intro i
-    show ((s.draw.2.setTimer j t).timerSlot i).state ≠ _
     rw [hslot]; split
     · rw [hts.1]; simp
     · exact h.notDel i
   · intro i
-    show ((s.draw.2.setTimer j t).timerSlot i).state = _ → ((s.draw.2.setTimer j t).timerSlot i).hasTl = _
     rw [hslot]; split
     · exact fun _ => hts.2.2
     · exact h.actTl i
   · intro i
-    show ((s.draw.2.setTimer j t).timerSlot i).state ≠ _ → _ → ((s.draw.2.setTimer j t).timerSlot i).check ≠ _
     rw [hslot]; split
     · intro _ _; rw [hts.2.1]; omega
     · exact h.nz i
@@ -185,9 +196,10 @@ theorem TG.timerDel {fl : Option Nat} {s : St} (h : TG fl s) (v : Nat) (hv : v =
           rcases hst' with e | e
           · have : ((s.timerSlot i).state == EState.joblist) = false := by rw [e]; rfl
             simp only [this, Bool.false_eq_true, if_false]
-            by_contra hne
-            have := (h.qJob i (Nat.pos_of_ne_zero hne)).1
-            rw [e] at this; cases this
+            rcases Nat.eq_zero_or_pos (s.cnt (.timer i)) with h0 | hp
+            · exact h0
+            · have := (h.qJob i hp).1
+              rw [e] at this; cases this
           · have : ((s.timerSlot i).state == EState.joblist) = true := by rw [e]; rfl
             simp only [this, if_true]
             exact cnt_itemDel_self s _ _ (h.qNd i)
